@@ -104,7 +104,7 @@ ENGINES["serve"] = dict(
 ENGINES["l2frame"] = dict(drv="l2frame", starts=(), trivial=r"=> unparsable$",
     branches=["l2.chaddr6", "l2.chaddr-other", "l2.yiaddr-zero", "l2.yiaddr-set", "l2.frame", "l2.no-frame"])
 ENGINES["chain"] = dict(drv="chain", starts=("ccfg",), trivial=r"=> drop$", branches=["chain.cfg4.ok", "chain.cfg6.ok", "chain.drop", "chain.send"])
-ENGINES["allocc"] = dict(drv="alloc", starts=("new6", "new4"), trivial=r"$^", branches=["batch", "arace", "afrace", "achurn"], noshrink=True)
+ENGINES["allocc"] = dict(drv="alloc", starts=("new6", "new4"), trivial=r"$^", branches=["batch", "arace", "afrace", "achurn", "ahchurn"], noshrink=True)
 ENGINES["rangec"] = dict(drv="range", starts=("rsetup",), trivial=r"$^", branches=["batch"], noshrink=True)
 ENGINES["prefixc"] = dict(drv="prefix", starts=("psetup",), trivial=r"$^", branches=["batch", "prefix.prace"], noshrink=True)
 ENGINES["dispatch4c"] = dict(drv="dispatch4", starts=(), trivial=r"=> U ; drop ; inv -$", branches=[])
